@@ -57,7 +57,8 @@ PROBES = ['async_iteration', 'mode_reader', 'mode_run', 'mode_redirect', 'text_m
           'tiny_packets', 'readuntil_multi', 'readuntil_regex',
           'incomplete_read_at_eof', 'limit_overrun', 'exit_signal',
           'exit_status', 'redirect_process', 'redirect_file',
-          'redirect_stream', 'redirect_async_file']
+          'redirect_stream', 'redirect_async_file',
+          'drain_on_redirected_stream']
 
 ALPHA_B = [b'a', b'b', b'c', b'\n', b'\n', b';', b',', b'\r', b'x', b'::']
 ALPHA_T = ['a', 'b', '\n', '\n', ';', ',', '\r', 'é', '€', '😀', '::', 'ß']
@@ -91,7 +92,7 @@ def render(idx, text):
 
 TARGETS = ['file', 'devnull', 'process', 'stdin_file', 'stream_out',
            'stream_in', 'process_in', 'afile_out', 'afile_in',
-           'stderr_stdout', 'fileobj_out']
+           'stderr_stdout', 'fileobj_out', 'drain_redirected']
 
 
 def gen_chunks(rng, total):
@@ -559,8 +560,10 @@ def run_plan(plan, sched_seed=None, sched_replay=None):
         await t1
         await t2
 
-        # the command only exits once it has consumed its input
-        await stdin_task
+        # the command only exits once it has consumed its input (unless it
+        # is one that never looks at it)
+        if cmd != 'cmd-noin':
+            await stdin_task
 
         ex = plan['exit']
 
@@ -654,6 +657,36 @@ def run_plan(plan, sched_seed=None, sched_replay=None):
                     res['merged'] = await proc.stdout.read()
                     await w
                     await proc.wait()
+                elif target == 'drain_redirected':
+                    # stdin is fed from a source that never ends; the caller
+                    # waits in drain() on it while the command exits
+                    async def endless(reader, writer):
+                        for piece in in_pieces:
+                            writer.write(piece.encode('utf-8') if text
+                                         else piece)
+
+                        await reader.read()
+                        writer.close()
+
+                    srv = await asyncio.start_server(endless, '10.0.0.7',
+                                                     9001)
+                    rd, wr = await asyncio.open_connection('10.0.0.7', 9001)
+                    proc = await conn.create_process('cmd-noin', stdin=rd,
+                                                     **kw)
+
+                    async def drain_it():
+                        try:
+                            await proc.stdin.drain()
+                        except (asyncssh.Error, OSError):
+                            pass
+
+                    sim.track('redirected-drain', drain_it())
+                    res['run'] = await proc.wait()
+                    sim.probes['drain_on_redirected_stream'] += 1
+                    await world.gate('settled')
+                    wr.close()
+                    srv.close()
+                    await srv.wait_closed()
                 elif target in ('stream_out', 'stream_in'):
                     got = {'data': b'', 'eof': False}
 
@@ -773,6 +806,21 @@ def run_plan(plan, sched_seed=None, sched_replay=None):
 
         if res.get('stream') is not None:
             res['stream'] = dict(res['stream'])
+
+        if plan.get('target') == 'drain_redirected' and \
+                not sim.loop.capped:
+            stuck = [t.sim_name for t in sim.tracked
+                     if not t.done() and t.sim_name == 'redirected-drain']
+
+            if stuck and res.get('run') is not None:
+                world.violation(
+                    'hang', 'the command has exited and its channel is '
+                    'closed, yet drain() on the stdin stream that was '
+                    'redirected from a reader is still waiting',
+                    sig='redirected-drain')
+
+        if res.get('stream') is not None or \
+                plan.get('target') == 'drain_redirected':
             world.open_gate('settled')
             world.run_phase()
 
